@@ -86,9 +86,15 @@ func (r *Run) Enabled() []wx.Op {
 					}
 					if f&FVal != 0 && len(set) > 0 {
 						add(OpNewBatch, int8(si), int8(cnt), -2, 1)
+						if f&FQ != 0 {
+							add(OpNewBatchQ, int8(si), int8(cnt), -2, 1)
+						}
 					}
 					if rel >= 0 {
 						for _, t := range allTargets {
+							if f&FVal != 0 && cnt == 1 {
+								add(OpNewBatch, int8(si), int8(cnt), t, 1) // component values and a target
+							}
 							add(OpNewBatch, int8(si), int8(cnt), t, 0)
 							if f&FQ != 0 {
 								add(OpNewBatchQ, int8(si), int8(cnt), t, 0)
@@ -421,6 +427,13 @@ func (r *Run) Enabled() []wx.Op {
 						add(OpBatchRemove, ref, int8(ci), 0, 0)
 						if f&FQ != 0 {
 							add(OpBatchRemoveQ, ref, int8(ci), 0, 0)
+						}
+					}
+					if ill && len(ms) > 0 {
+						// the same component added and removed in one batch call
+						add(OpBatchExchange, ref, int8(ci), int8(ci), 0)
+						if f&FQ != 0 {
+							add(OpBatchExchangeQ, ref, int8(ci), int8(ci), 0)
 						}
 					}
 					if noneHave {
